@@ -100,6 +100,18 @@ class C19(Prop):
             p = scale_free_cut_off(case["alpha"], case["kappa"]); ks = list(range(1, 61))
         vals = [float(p(k)) for k in ks]
         obs = {"ks": ks, "vals": [repr(v) for v in vals]}
+        # degrees handed over as NumPy integers (e.g. np.arange over the support) name the same k
+        if fam != "power_law" or isinstance(case["alpha"], float):
+            bad = []
+            for k, v in list(zip(ks, vals))[:16]:
+                for ty in ("uint32", "int64"):
+                    try:
+                        w = float(p(getattr(np, ty)(k)))
+                        if not (w == v or abs(w - v) <= 1e-12 * abs(v)):
+                            bad.append([k, ty, repr(w)])
+                    except Exception as e:
+                        bad.append([k, ty, type(e).__name__])
+            obs["numpy_degrees"] = bad[:4]
         if fam == "scale_free_cut_off":
             obs["z"] = repr(float(np.exp(-1.0 / case["kappa"])))
         return obs
@@ -144,6 +156,9 @@ class C19(Prop):
             k = next(k for k, v in zip(ks, obs["vals"]) if v.lstrip("-") in ("inf", "nan"))
             return [f"not-finite: p({k}) = {obs['vals'][ks.index(k)]}"]
         vals = [Decimal(v) for v in obs["vals"]]
+        if obs.get("numpy_degrees"):
+            k, ty, w = obs["numpy_degrees"][0]
+            f.append(f"numpy-degree: p(np.{ty}({k})) = {w} but p({k}) = {obs['vals'][ks.index(k)]}")
         if any(v < 0 for v in vals):
             f.append("negative: a probability is negative")
         rel = Decimal("1e-9")
